@@ -12,7 +12,7 @@
 //	    each run against ALL subject strings over {a,b,1,' '} of length <= 5
 //	    (quick 4).
 //	(B) "class" family: all sequences of 1..2 (atom quant?) over the leaf atoms
-//	    {a, b, ., [ab], [^a], [a-b], [^ab], [a-b1], [\da], \d, \w, \s, \D, \W, \S},
+//	    {a, b, A, ., [ab], [^a], [a-b], [^ab], [a-b1], [\da], [AB], [^A], \d, \w, \s, \D, \W, \S},
 //	    plain / with (?i) prefix / wrapped as ^…$ and \A…\Z, against all
 //	    subjects over {a,b,A,B,1,' ',_,-} of length <= 3.
 //	(C) the structure family of size <= 2 (quick) / 3 (thorough) again with the
@@ -217,7 +217,7 @@ func buildWork(c *lib.Ctx) []work {
 		}
 	}
 	// (B) class family
-	classes := []string{"a", "b", ".", "[ab]", "[^a]", "[a-b]", "[^ab]", "[a-b1]", `[\da]`,
+	classes := []string{"a", "b", "A", ".", "[ab]", "[^a]", "[a-b]", "[^ab]", "[a-b1]", `[\da]`, "[AB]", "[^A]",
 		`\d`, `\w`, `\s`, `\D`, `\W`, `\S`}
 	elems := func(qs []string) []string {
 		var el []string
